@@ -114,6 +114,8 @@ func Draw(t *sim.Tape, p DrawParams) *Workload {
 				st.Ops = append(st.Ops, simfn.Op{"op": "emitFixed", "name": "late"})
 			case 3:
 				st.Ops = append(st.Ops, simfn.Op{"op": "setField", "field": "extra", "value": st.Name})
+			case 4:
+				st.Ops = append(st.Ops, simfn.Op{"op": "nameFrom", "field": "spec.size"})
 			}
 		}
 		if p.Fatal {
@@ -135,7 +137,9 @@ func Draw(t *sim.Tape, p DrawParams) *Workload {
 			st.Ops = append(st.Ops, simfn.Op{"op": "result", "severity": []string{"normal", "warning"}[t.Next(2)], "message": "result-from-" + st.Name})
 		}
 		if p.Requirements && t.Next(2) == 0 {
-			switch t.Next(4) {
+			switch t.Next(5) {
+			case 4:
+				st.Ops = append(st.Ops, simfn.Op{"op": "require", "mode": "pager"})
 			case 0:
 				st.Ops = append(st.Ops, simfn.Op{"op": "require", "mode": "name", "key": "one", "name": "e0", "report": "y"})
 			case 1:
